@@ -93,10 +93,10 @@ Lemma holds_conc_http fuel pre ops : snd (hexplore fuel pre ops) = true ->
   holds (Conc Http pre ops) (run_model_f fuel (Conc Http pre ops)) = [].
 Proof.
   intros Hv. cbn [run_model_f]. unfold hconc_obs. unfold hexplore in Hv.
-  destruct (conc_obs_ok hglob hpc hop hlock (hcstep true) hmstep his_idle hgcode hpccode hopcode herr hfinal HInv
-              (inv_step hglob hpc hop hlock (hcstep true) hmstep hgok hlok hact hactb hO1' hO2' hO3')
+  destruct (conc_obs_ok hglob hpc hop hlock (hcstep true true) hmstep his_idle hgcode hpccode hopcode herr hfinal HInv
+              (inv_step hglob hpc hop hlock (hcstep true true) hmstep hgok hlok hact hactb hO1' hO2' hO3')
               hinv_err
-              (no_deadlock hglob hpc hop hlock (hcstep true) hmstep his_idle hgok hlok hact hactb hD1' hD2')
+              (no_deadlock hglob hpc hop hlock (hcstep true true) hmstep his_idle hgok hlok hact hactb hD1' hD2')
               hP_final fuel (hpool0 pre ops) (hpool0_inv pre ops) Hv) as (f & E & Hf).
   rewrite E. apply holds_conc_ok. exact Hf.
 Qed.
